@@ -4,6 +4,13 @@
 #![feature(allocator_api)]
 use vstd::prelude::*;
 verus! {
+// std specifications not in vstd (A-std)
+pub assume_specification<T, F: FnOnce(T) -> bool> [Option::<T>::is_some_and] (o: Option<T>, f: F) -> (r: bool)
+    requires o.is_some() ==> f.requires((o.unwrap(),))
+    ensures o.is_none() ==> !r, o.is_some() ==> f.ensures((o.unwrap(),), r);
+pub assume_specification<T, F: FnOnce(T) -> bool> [Option::<T>::is_none_or] (o: Option<T>, f: F) -> (r: bool)
+    requires o.is_some() ==> f.requires((o.unwrap(),))
+    ensures o.is_none() ==> r, o.is_some() ==> f.ensures((o.unwrap(),), r);
 //@begin-export
 // std: reserve_exact only changes the capacity (A-std)
 pub assume_specification<T, A: std::alloc::Allocator> [std::vec::Vec::<T, A>::reserve_exact] (v: &mut Vec<T, A>, additional: usize)
